@@ -406,9 +406,18 @@ def self_check_plate_addresses(run, b, i, text, body, rstep, mb, ma, solvent, ke
                     f"step {i}: '{text[:200]}': well {rows[cell[0]]}{cols[cell[1]]} is told {float(shown)} {unit} but received {float(exact / mult):.9g} {unit}", kid)
                 return
         else:
-            # not listed: must have received (almost) nothing at the displayed precision
+            # not listed: must have received nothing at the precision the instruction displays (one unit for all groups)
             vol = added * W.msubs[solvent].per_amount('L')
-            if vol > F(1, 10 ** 6) * F(6, 10) and vol > 100 * W.q_amt(solvent) * W.msubs[solvent].per_amount('L'):
+            shown_step = F(1, 10 ** 6) * F(6, 10)
+            if told:
+                u0 = next(iter(told.values()))[0][1]
+                try:
+                    m0, b0_ = M.split_unit(u0)
+                    if b0_ == 'L':
+                        shown_step = max(shown_step, m0 * F(1, 2 * 10 ** W.units.precision(u0)) * F(1001, 1000))
+                except M.ModelError:
+                    pass
+            if vol > shown_step and vol > 100 * W.q_amt(solvent) * W.msubs[solvent].per_amount('L'):
                 b.V('C19', 'step_fill_addresses', key + ('plate', 'missing'),
                     f"step {i}: '{text[:200]}': well {rows[cell[0]]}{cols[cell[1]]} received {float(vol * 10 ** 6):.6g} uL but is not listed", kid)
                 return
